@@ -63,7 +63,12 @@ type outcome struct {
 func evaluate(cs consensus.State, b types.Block, bs consensus.V1BlockSupplement, c *chaingen.Chain) outcome {
 	var o outcome
 	err := consensus.ValidateBlock(cs, b, bs)
+	// the verdict is accept/reject plus the class of the rejection; which of several equally failing parents a
+	// message names first (Go map order in the signature check) is not part of it
 	o.verdict = errStr(err)
+	if err != nil {
+		o.verdict = chaingen.NormErr(err)
+	}
 	if err == nil {
 		next, au := consensus.ApplyBlock(cs, b, bs, c.AncestorTimestamp(cs.Index.Height))
 		o.stateEnc = enc(next)
@@ -264,6 +269,22 @@ func provenance(b *harness.B, c *chaingen.Chain, s sample) {
 			return out, true
 		},
 	}
+	// a block built in memory may carry a timestamp with a sub-second part (time.Now()); its ID and wire form know
+	// whole seconds only, so it is the same block as its decoded copy and must lead to the same state
+	if s.valid {
+		sub := chaingen.CloneBlock(s.b)
+		sub.Timestamp = sub.Timestamp.Add(750 * time.Millisecond)
+		if sub.ID() == s.b.ID() {
+			dec := chaingen.CloneBlock(sub)
+			dec.Timestamp = time.Unix(sub.Timestamp.Unix(), 0) // what the wire form carries
+			a, d := evaluate(s.cs, sub, s.bs, c), evaluate(s.cs, dec, s.bs, c)
+			b.Eval(1)
+			b.Count("sub_second_timestamp_comparisons", 1)
+			if diff := a.equal(d); diff != "" {
+				b.Violate("C09/provenance/sub-second-timestamp-vs-decoded-copy", "a block whose in-memory timestamp has a sub-second part and its decode(encode()) copy (same ID, same bytes) give different results: "+diff, wit)
+			}
+		}
+	}
 	for name, mk := range variants {
 		blk, ok := mk()
 		if !ok {
@@ -399,6 +420,31 @@ func maintained(b *harness.B, c *chaingen.Chain, s sample, wit map[string]any) {
 	}
 }
 
+// policyProvenance: a time lock built in memory with a sub-second part encodes (and hashes into its address) as
+// whole seconds; the in-memory policy and its decoded copy are the same policy and must get the same verdict.
+func policyProvenance(b *harness.B) {
+	base := time.Unix(1_700_000_000, 0)
+	for _, lockFrac := range []time.Duration{0, 100 * time.Millisecond, 900 * time.Millisecond} {
+		for _, medOff := range []time.Duration{0, 500 * time.Millisecond, time.Second, 1500 * time.Millisecond} {
+			p := types.PolicyAfter(base.Add(lockFrac))
+			var q types.SpendPolicy
+			d := types.NewBufDecoder(enc(p))
+			q.DecodeFrom(d)
+			if d.Err() != nil || p.Address() != q.Address() {
+				continue
+			}
+			med := base.Add(medOff)
+			e1 := p.Verify(10, med, types.Hash256{}, nil, nil)
+			e2 := q.Verify(10, med, types.Hash256{}, nil, nil)
+			b.Eval(1)
+			b.Count("policy_provenance_comparisons", 1)
+			if (e1 == nil) != (e2 == nil) {
+				b.Violate("C09/provenance/after-policy-with-sub-second-lock-vs-decoded-copy", fmt.Sprintf("after(%v) at median %v: in-memory policy accepted=%v, its decoded copy (same address) accepted=%v", base.Add(lockFrac).Format("15:04:05.000"), med.Format("15:04:05.000"), e1 == nil, e2 == nil), map[string]any{"lock_fraction": lockFrac.String(), "median_offset": medOff.String()})
+			}
+		}
+	}
+}
+
 // ---------------------------------------------------------------- copies
 
 func copies(b *harness.B, c *chaingen.Chain, s sample) {
@@ -454,9 +500,22 @@ func copies(b *harness.B, c *chaingen.Chain, s sample) {
 			o.FileContract.ValidProofOutputs = append([]types.SiacoinOutput(nil), o.FileContract.ValidProofOutputs...)
 			o.FileContract.MissedProofOutputs = append([]types.SiacoinOutput(nil), o.FileContract.MissedProofOutputs...)
 			ec := o.Copy()
-			// FileContractElement.Copy is documented as a deep copy of the element (its proof); the contract's output slices are value data
-			try("FileContractElement.Copy(state element)", &o.StateElement, &ec.StateElement)
+			// documented as "a deep copy of the element": proof and contract (output slices) alike
+			try("FileContractElement.Copy", &o, &ec)
 			break
+		}
+	}
+	// attestation elements (reported in the JSON form of the update only)
+	if s.b.V2 != nil {
+		for _, t := range s.b.V2.Transactions {
+			for _, a := range t.Attestations {
+				o := types.AttestationElement{ID: types.AttestationID{1}, StateElement: types.StateElement{LeafIndex: 3, MerkleProof: []types.Hash256{{1}, {2}}}, Attestation: a}
+				o.Attestation.Value = append([]byte{}, a.Value...)
+				o.Attestation.Key = a.Key
+				ec := o.Copy()
+				try("AttestationElement.Copy", &o, &ec)
+				return
+			}
 		}
 	}
 }
@@ -630,6 +689,9 @@ func clockIndependence(b *harness.B, fam string, idx int, past *chaingen.Chain) 
 
 func run(b *harness.B) {
 	race := b.Batch%4 == 3
+	if b.Batch == 0 {
+		policyProvenance(b)
+	}
 	nNets := b.Pick(2, 6)
 	for i := 0; i < nNets; i++ {
 		fam := chaingen.Families[(b.Batch+i)%len(chaingen.Families)]
